@@ -103,7 +103,9 @@ def materialize(name, opts, data, aseed=0, extra=None):
   if isinstance(p.get('init'), str) and p.get('init') == 'diag-array':
     p['init'] = np.diag(0.5 + np.random.RandomState(aseed).rand(d) * 3)
   if isinstance(p.get('basis'), str) and p.get('basis') == 'array':
-    K = p.pop('n_basis_array', None) or (d + 4)
+    # a fifth of the user-supplied bases have fewer rows than the data has features (the documented
+    # "reduces the dimension" case, where components_ is the weighted basis itself)
+    K = p.pop('n_basis_array', None) or (max(1, d - 1 - aseed % 2) if aseed % 5 == 1 else d + 4)
     p['basis'] = gen.basis_from_seed(K, d, aseed)
   if aseed % 3 == 0:
     # memory layout is not part of an array's meaning: a third of the array-valued options are column-major
